@@ -17,15 +17,26 @@
 (*   disk-mutate  storage changed behind the client's back while stopped   *)
 (*             (class per piece afterwards); recorded when the Verify      *)
 (*             command that follows it has been taken by the loop          *)
+(*   disk-lost files of the torrent vanished from the storage while it was *)
+(*             stopped (class per piece afterwards); recorded when the     *)
+(*             torrent, started again, has opened its files (allocation)   *)
+(*   drop      a stalling peer hangs up while the honest peer is busy with *)
+(*             an end-game duplicate (environment event, no obligation)    *)
 (*   resume    resume-database bitfield read back after Close              *)
+(* init.obsw = FALSE: the torrent uses the session's own file storage on a *)
+(* real directory; writes are not observed, the files are read (disk line) *)
+(* when completion is reported and at the end: the claims (C01.b/c) are    *)
+(* judged only where the storage truth is fresh, C01.d always.             *)
 (* A failed obligation sets viol (does not block the step).                *)
 (***************************************************************************)
 EXTENDS TransferObs, Json
 
 VARIABLES l, plen, honest, bansSeen,
           peerHave,   \* [ip -> pieces the scripted peer at that address holds] (from the scenario)
-          idleSince   \* [ip -> time (ms) since which the peer is idle, unchoked and holds a needed unrequested piece; -1 = not]
-tvars == <<obsvars, l, plen, honest, bansSeen, peerHave, idleSince>>
+          idleSince,  \* [ip -> time (ms) since which the peer is idle, unchoked and holds a needed unrequested piece; -1 = not]
+          obsw,       \* storage writes are observed (recording storage); FALSE on the real file system
+          fresh       \* good is the exact storage truth now (always, if obsw; else from a disk line to the next loop step)
+tvars == <<obsvars, l, plen, honest, bansSeen, peerHave, idleSince, obsw, fresh>>
 
 IdleLimitMs == 3000
 
@@ -48,6 +59,7 @@ TraceInit ==
     /\ np = Trace[1].np /\ plen = Trace[1].plen /\ honest = Trace[1].honest
     /\ good = SetOf(Trace[1].good) /\ have = {} /\ reported = {} /\ banned = {} /\ conn = {} /\ bansSeen = {}
     /\ peerHave = PeerHaveOf(Trace[1]) /\ idleSince = [ip \in DOMAIN PeerHaveOf(Trace[1]) |-> -1]
+    /\ obsw = Trace[1].obsw /\ fresh = TRUE
     /\ TLCSet(1, 1)
 
 TrReset ==
@@ -55,9 +67,10 @@ TrReset ==
     /\ np' = Ev.np /\ plen' = Ev.plen /\ honest' = Ev.honest
     /\ good' = SetOf(Ev.good) /\ have' = {} /\ reported' = {} /\ banned' = {} /\ conn' = {} /\ bansSeen' = {}
     /\ peerHave' = PeerHaveOf(Ev) /\ idleSince' = [ip \in DOMAIN PeerHaveOf(Ev) |-> -1]
+    /\ obsw' = Ev.obsw /\ fresh' = TRUE
     /\ l' = l + 1
 
-Keep == UNCHANGED <<np, plen, honest, peerHave>>
+Keep == UNCHANGED <<np, plen, honest, peerHave, obsw>>
 
 \* @obligation C01.a  every byte written into the torrent's files is verified content
 TrWrite ==
@@ -66,7 +79,7 @@ TrWrite ==
        IN /\ good' = IF Ev.p \in Piece /\ ~Ev.err          \* a failed write leaves the stored bytes as they were
                     THEN (IF Ev.pgood THEN good \cup {Ev.p} ELSE good \ {Ev.p}) ELSE good
           /\ Note(IF bad THEN "C01.a" ELSE "")
-    /\ l' = l + 1 /\ Keep /\ UNCHANGED <<have, reported, banned, conn, bansSeen, idleSince>>
+    /\ l' = l + 1 /\ Keep /\ UNCHANGED <<have, reported, banned, conn, bansSeen, idleSince, fresh>>
 
 \* @obligation C01.b  bitfield / Done flags only for verified pieces in storage
 \* @obligation C01.e  banned addresses are not connected
@@ -87,7 +100,8 @@ TrSnap ==
     /\ bansSeen' = bansSeen \cup SetOf(Ev.banned)
     /\ conn' = SetOf(Ev.conns)
     /\ idleSince' = [ip \in DOMAIN idleSince |-> IF IdleNow(Ev, ip) THEN (IF idleSince[ip] = -1 THEN Ev.t ELSE idleSince[ip]) ELSE -1]
-    /\ Note(IF ~(have' \subseteq good) THEN "C01.b"
+    /\ fresh' = obsw                                 \* a loop step may have written; unobserved writes make the truth stale
+    /\ Note(IF fresh' /\ ~(have' \subseteq good) THEN "C01.b"
                ELSE IF (bansSeen' \cap conn') # {} THEN "C01.e.connected"
                ELSE IF Ev.status = "Seeding" /\ SetOf(Ev.have) # Piece THEN "C01.d.seeding"
                ELSE IF \E ip \in DOMAIN idleSince : idleSince[ip] # -1 /\ Ev.t - idleSince[ip] >= IdleLimitMs THEN "C10.idle"
@@ -99,58 +113,66 @@ TrRep ==
     /\ Ev.ev = "rep"
     /\ LET ps == IF Ev.kind = "haveall" THEN Piece ELSE SetOf(Ev.pieces)
        IN /\ reported' = reported \cup ps
-          /\ Note(IF ~(ps \subseteq good) THEN "C01.c.wire" ELSE "")
-    /\ l' = l + 1 /\ Keep /\ UNCHANGED <<good, have, banned, conn, bansSeen, idleSince>>
+          /\ Note(IF fresh /\ ~(ps \subseteq good) THEN "C01.c.wire" ELSE "")
+    /\ l' = l + 1 /\ Keep /\ UNCHANGED <<good, have, banned, conn, bansSeen, idleSince, fresh>>
 
 \* @obligation C01.c  stats never claim more than what is verified in storage
 TrStats ==
     /\ Ev.ev = "stats"
-    /\ Note(IF Ev.have > Cardinality(good) THEN "C01.c.stats.have"
-               ELSE IF Ev.completed > SumLen(good, plen) THEN "C01.c.stats.bytes"
+    /\ Note(IF fresh /\ Ev.have > Cardinality(good) THEN "C01.c.stats.have"
+               ELSE IF fresh /\ Ev.completed > SumLen(good, plen) THEN "C01.c.stats.bytes"
                ELSE "")
-    /\ l' = l + 1 /\ Keep /\ UNCHANGED <<good, have, reported, banned, conn, bansSeen, idleSince>>
+    /\ l' = l + 1 /\ Keep /\ UNCHANGED <<good, have, reported, banned, conn, bansSeen, idleSince, fresh>>
 
 \* @obligation C01.d  completion reported => every file byte-identical to the metainfo's content
 TrComplete ==
     /\ Ev.ev = "complete"
-    /\ Note(IF good # Piece THEN "C01.d.pieces" ELSE IF ~Ev.filesOK THEN "C01.d.files" ELSE "")
-    /\ l' = l + 1 /\ Keep /\ UNCHANGED <<good, have, reported, banned, conn, bansSeen, idleSince>>
+    /\ Note(IF fresh /\ good # Piece THEN "C01.d.pieces" ELSE IF ~Ev.filesOK THEN "C01.d.files" ELSE "")
+    /\ l' = l + 1 /\ Keep /\ UNCHANGED <<good, have, reported, banned, conn, bansSeen, idleSince, fresh>>
 
 \* @obligation C10.live  an honest full source stayed reachable but the download did not finish
 TrTimeout ==
     /\ Ev.ev = "timeout"
     /\ Note(IF \E ip \in DOMAIN idleSince : idleSince[ip] # -1 /\ Ev.t - idleSince[ip] >= IdleLimitMs THEN "C10.idle"
             ELSE IF honest THEN "C10.live" ELSE "")
-    /\ l' = l + 1 /\ Keep /\ UNCHANGED <<good, have, reported, banned, conn, bansSeen, idleSince>>
+    /\ l' = l + 1 /\ Keep /\ UNCHANGED <<good, have, reported, banned, conn, bansSeen, idleSince, fresh>>
 
 \* @obligation C01.e  the peer that supplied a corrupt piece is disconnected and banned ...
 TrExpect ==
     /\ Ev.ev = "expect"
     /\ Note(IF Ev.what = "ban" /\ Ev.sentBad > 0 /\ ~Ev.ok THEN "C01.e.notbanned" ELSE "")
     /\ bansSeen' = IF Ev.ok THEN bansSeen \cup {Ev.ip} ELSE bansSeen
-    /\ l' = l + 1 /\ Keep /\ UNCHANGED <<good, have, reported, banned, conn, idleSince>>
+    /\ l' = l + 1 /\ Keep /\ UNCHANGED <<good, have, reported, banned, conn, idleSince, fresh>>
 
 \* @obligation C01.e  ... and not reused
 TrRedial ==
     /\ Ev.ev = "redial"
     /\ Note(IF Ev.accepted /\ Ev.ip \in bansSeen THEN "C01.e.reused" ELSE "")
-    /\ l' = l + 1 /\ Keep /\ UNCHANGED <<good, have, reported, banned, conn, bansSeen, idleSince>>
+    /\ l' = l + 1 /\ Keep /\ UNCHANGED <<good, have, reported, banned, conn, bansSeen, idleSince, fresh>>
 
-TrDisk ==                                          \* storage truth recomputed by the harness (end of run / after damage)
-    /\ Ev.ev \in {"disk", "disk-mutate"}
+\* storage truth recomputed by the harness: end of run, completion on the real file system, and the environment actions of
+\* Transfer.tla that change the storage while the torrent is stopped (Damage: bytes of a piece altered, followed by Verify;
+\* LoseFiles: files removed, followed by Start) - from here on every claim is judged against the new truth
+TrDisk ==
+    /\ Ev.ev \in {"disk", "disk-mutate", "disk-lost"}
     /\ good' = {p \in Piece : Ev.class[p + 1] = "good"}
+    /\ fresh' = TRUE
     /\ l' = l + 1 /\ Keep /\ UNCHANGED <<have, reported, banned, conn, bansSeen, idleSince>>
+
+TrDrop ==                                          \* environment: a stalling peer hangs up (Transfer.tla Disconnect of a liar)
+    /\ Ev.ev = "drop"
+    /\ l' = l + 1 /\ Keep /\ UNCHANGED <<good, have, reported, banned, conn, bansSeen, idleSince, fresh>>
 
 \* @obligation C01.r  resume data never claims a piece whose verified content is not in storage
 TrResume ==
     /\ Ev.ev = "resume"
-    /\ Note(IF ~(SetOf(Ev.bits) \subseteq good) THEN "C01.c.resume" ELSE "")
-    /\ l' = l + 1 /\ Keep /\ UNCHANGED <<good, have, reported, banned, conn, bansSeen, idleSince>>
+    /\ Note(IF fresh /\ ~(SetOf(Ev.bits) \subseteq good) THEN "C01.c.resume" ELSE "")
+    /\ l' = l + 1 /\ Keep /\ UNCHANGED <<good, have, reported, banned, conn, bansSeen, idleSince, fresh>>
 
 TraceNext ==
     /\ l <= Len(Trace)
     /\ \/ TrReset \/ TrWrite \/ TrSnap \/ TrRep \/ TrStats \/ TrComplete \/ TrTimeout \/ TrExpect \/ TrRedial
-       \/ TrDisk \/ TrResume
+       \/ TrDisk \/ TrResume \/ TrDrop
 
 TraceSpec == TraceInit /\ [][TraceNext]_tvars
 
